@@ -64,6 +64,12 @@ def check(run):
     K2 = 3 if quick else 5
     vecs2 = versgen.model(run, K2, chain=2)
     jobs += [j for j in jobs_for(vecs2, ch2, K2, versgen.SCHEMES, prepos=versgen.PYPI_PREPOS2) if j["tag"] == "den"]
+    # third family: chains anchored at the zero version (its pre-release, zero, the first version above it)
+    ch3 = versgen.chains(run, chain=3)
+    versgen.check_chains(run, exe, ch3)
+    K3 = 3 if quick else 4
+    vecs3 = versgen.model(run, K3, chain=3)
+    jobs += [j for j in jobs_for(vecs3, ch3, K3, versgen.SCHEMES, prepos=versgen.PREPOS[3]) if j["tag"] == "den"]
     if not quick:
         # K = 8 by simulation-like sampling: random alternating shapes over 8 bounds (beyond the exhaustive bound)
         jobs += sampled_k8(ch, rnd, 400)
